@@ -25,6 +25,11 @@ def run(repo, run, tier):
     richardson_retry(repo, run)
     recorded_pairing(repo, run)
     nan_rejection(repo, run)
+    # 'run with tolerances (rtol, atol)': tolerances changed through the system's setters must reach every copy the integrators keep
+    from .c13 import settings_reach_integrator
+    from ..access import ClassModel
+    from ..imodel import DS
+    settings_reach_integrator(repo, run, ClassModel(repo, DS, "OdeSystem"), rule_id="C05.8")
 
 
 def typestate(repo, run):
@@ -61,8 +66,8 @@ def typestate(repo, run):
     return m
 
 
-def retry_step(repo, run):
-    rid = run.rule("C05.2", "the step passed to step() on a retry is the controller's proposal bounded in MAGNITUDE by the requested step "
+def retry_step(repo, run, rule_id="C05.2"):
+    rid = run.rule(rule_id, "the step passed to step() on a retry is the controller's proposal bounded in MAGNITUDE by the requested step "
                             "(sign(h) * min(|proposal|, |h|) or the proposal itself), never a signed min/max", floor=1)
     call = repo.get(ITY, extract.RK + ".__call__")
     m = rkcall.CallModel(call)
@@ -84,7 +89,7 @@ def retry_step(repo, run):
                 why = "does not contain the controller's proposal `%s`" % m.ret_var if m.ret_var not in names else (
                     "takes a maximum" if has_max else ("takes the minimum of signed steps (for backward integration that is the larger step)" if bad_min
                                                        else "is not a signed duration (kind %s)" % (k,)))
-                run.report("C05.2", ITY, arg, "the step used for a retry %s: a rejected step is not retried with a strictly smaller magnitude in both "
+                run.report(rule_id, ITY, arg, "the step used for a retry %s: a rejected step is not retried with a strictly smaller magnitude in both "
                                               "directions of time" % why)
 
 
